@@ -29,7 +29,7 @@ THEOREMS = {
     "C09": [S + "fireTable_unique", S + "fire_rename'", S + "fireOf_rename'", S + "val_rename'", S + "val_run_rename'", S + "fireTrace_rename'", S + "WellRanked.rename'",
             S + "solution_extends", S + "fireTable_least", S + "gc_transparent", "SodiumVerif.Sched.transaction_result_unique", "SodiumVerif.Sched.sched_result_unique",
             G + "collect_sound_total"],
-    "C10": [S + n for n in ["quiet_stmt", "quiet_closeTxn", "quiet_runItems", "inactive_stays_inactive", "inactive_forever", "unlisten_never_called_again", "size_monotone", "late_building_txn", "late_later_txn", "late_never_invents", "listenerOutputs_eq", "unlisten_stops", "unlisten_deactivates", "listen_stream", "listen_cell_initial", "listen_cell_later",
+    "C10": [S + n for n in ["quiet_stmt", "quiet_closeTxn", "quiet_runItems", "inactive_stays_inactive", "inactive_forever", "unlisten_never_called_again", "size_monotone", "keeps_stmt_harmless", "strong_listener_survives_drops_and_gc", "late_building_txn", "late_later_txn", "late_never_invents", "listenerOutputs_eq", "unlisten_stops", "unlisten_deactivates", "listen_stream", "listen_cell_initial", "listen_cell_later",
                             "strong_listener_survives_drop", "stmt_unlisten"]],
     "C11": [S + n for n in ["fire_substLoop", "fireTrace_substLoop", "val_run_substLoop", "stepTxn_substLoop", "fire_substCLoop", "fireTrace_substCLoop_wf",
                             "val_run_substCLoop_wf", "sloop_fires", "cloop_fires'", "sloop_unclosed_silent", "cloop_value", "double_loop_panics", "sample_before_loop_panics", "stmt_sloopclose", "stmt_sample",
